@@ -84,6 +84,18 @@ var specs = map[string]spec{
 		},
 		Assumptions: commonAssumptions, Plain: true, QuickStride: 1, ThoroughStride: 2, QuickDeadline: 420, ThoroughDeadline: 3000,
 	},
+	"C03": {
+		LevelText: "bounded exhaustive enumeration of (namespace mode x template mode x directive chain x value) for direct prints - every one-byte string, every string of <=3 over the five specials and a letter, multi-byte, long and non-string values - with the statement checked clause by clause by an independent HTML decoder; and of eight block/call routes x caller modes x callee modes compared with the reference interpreter",
+		LevelNote: "the decoder and the effective-mode rule in harness/c03.go and ref_cmd.go are the trusted base; chains containing noAutoescape/id/escapeUri/escapeJsString/json and autoescape=false are exempt as the statement says; truncating already-escaped text is treated as unspecified",
+		Technique: "bounded exhaustive exploration of configurations x inputs with a decoding oracle and a reference interpreter",
+		Level:     "model_checking",
+		Rule:      "a state is a (modes, route, directive chain) configuration; transitions = renders (counter renders), one per value; non-trivial = the configuration compiled and was rendered for all values",
+		Bounds: map[string]string{
+			"quick":    "5 namespace modes x 4 template modes x all directive chains of length <=2 over 11 directive forms x 530 values; 8 routes x 20 caller modes x 9 callee modes x 8 values",
+			"thorough": "adds chains of length 3 over the six HTML-relevant directive forms",
+		},
+		Assumptions: commonAssumptions, Plain: true, QuickStride: 1, ThoroughStride: 1, QuickDeadline: 420, ThoroughDeadline: 3000,
+	},
 	"C05": {
 		LevelText: "bounded exhaustive exploration of the real parser: every input of the stated small scopes is parsed under a controlled scheduler with a deterministic linear fuel bound (no wall clock), and small inputs under every parser/scanner interleaving up to 2 preemptions; termination, no panic, no deadlock and tree-xor-error are checked on every execution and every case is replayed on the uninstrumented build",
 		LevelNote: "assumes the bounded scopes are representative (small-scope hypothesis) and that the overlay instrumentation preserves behaviour (cross-checked case by case against the plain build)",
